@@ -49,9 +49,17 @@ type Program struct {
 	Package  string    `json:"package"` // proto package and Go package name, "p"
 	Enums    []Enum    `json:"enums"`
 	Messages []Message `json:"messages"`
+	// MoreFiles are further files to generate in the same invocation (same proto and Go package).
+	MoreFiles []ExtraFile `json:"more_files,omitempty"`
 	// Extra dependency files whose messages are not referenced (C12 style noise; harmless here).
 	ExtraDeps []string `json:"extra_deps,omitempty"`
 	Config    Config   `json:"config"`
+}
+
+// ExtraFile is one more file of the request that is also generated.
+type ExtraFile struct {
+	File     string    `json:"file"`
+	Messages []Message `json:"messages"`
 }
 
 type Enum struct {
